@@ -367,3 +367,203 @@ Proof.
   intros; unfold applyCustomTransferFunction_guard0, applyCustomTransferFunction_guard1; cbv zeta.
   repeat split; auto.
 Qed.
+
+(* the real part of ifft (X * T), transformed back, is X * T on every bin where T is Hermitian *)
+Lemma apply_spectrum_core : forall (fft ifft : nat -> (nat -> C) -> nat -> C) n (x : nat -> R) (T : nat -> C) j,
+  fft_inverse fft ifft n -> fft_real_part fft n -> fft_real_hermitian fft n ->
+  (0 < j < n)%nat -> T (n - j)%nat = Cconj (T j) ->
+  fft n (fun k => RtoC (fst (ifft n (fun k => Cmult (fft n (fun k => RtoC (x k)) k) (T k)) k))) j =
+  Cmult (fft n (fun k => RtoC (x k)) j) (T j).
+Proof.
+  intros fft ifft n x T j Hinv Hre Hherm Hj HT.
+  rewrite (Hre (ifft n (fun k => Cmult (fft n (fun k => RtoC (x k)) k) (T k))) j Hj).
+  rewrite !Hinv by lia.
+  rewrite (Hherm x j Hj), HT.
+  rewrite Cconj_mult, !Cconj_conj.
+  generalize (Cmult (fft n (fun k => RtoC (x k)) j) (T j)); intros [a b].
+  apply Ceq_parts; simpl; field.
+Qed.
+
+Lemma filter_spectrum : forall fft ifft n (x : nat -> R) SR kind f_cut order g j,
+  fft_inverse fft ifft n -> fft_real_part fft n -> fft_real_hermitian fft n ->
+  SR <> 0 -> f_cut <> 0 -> (kind = "HP" \/ kind = "LP")%string -> (0 < j < n)%nat -> (2 * j <> n)%nat ->
+  applyRCFilter_len n x SR kind f_cut order g = n /\
+  fft n (fun k => RtoC (applyRCFilter_gen fft ifft n x SR kind f_cut order g k)) j =
+    Cmult (fft n (fun k => RtoC (x k)) j) (_rcFilter_gen SR n f_cut kind order g j) /\
+  fft n (fun k => RtoC (applyInverseRCFilter_gen fft ifft n x SR kind f_cut order g k)) j =
+    Cmult (fft n (fun k => RtoC (x k)) j) (_rcFilter_gen SR n f_cut kind (- order) g j).
+Proof.
+  intros fft ifft n x SR kind fc order g j Hinv Hre Hherm HSR Hfc Hk Hj Hne.
+  split; [reflexivity|split].
+  - unfold applyRCFilter_gen; cbv zeta.
+    apply (apply_spectrum_core fft ifft n x (_rcFilter_gen SR n fc kind order g) j); try assumption.
+    apply rc_hermitian; assumption.
+  - unfold applyInverseRCFilter_gen; cbv zeta.
+    apply (apply_spectrum_core fft ifft n x (_rcFilter_gen SR n fc kind (- order) g) j); try assumption.
+    apply rc_hermitian; assumption.
+Qed.
+
+Lemma half_ge_0 : forall SR n j, SR > 0 -> (0 < n)%nat -> (j < n)%nat ->
+  ((j <? (n + 1) / 2)%nat = true -> bin_freq SR n j >= 0) /\
+  ((j <? (n + 1) / 2)%nat = false -> bin_freq SR n j < 0).
+Proof.
+  intros SR n j HSR Hn Hj.
+  destruct (bin_layout SR n j ltac:(lra) Hn Hj) as [A1 A2].
+  assert (Hi : 0 < / INR n) by (apply Rinv_0_lt_compat; apply lt_0_INR; lia).
+  split; intro E.
+  - apply half_lt in E. rewrite (A1 E). apply Rle_ge.
+    unfold Rdiv; apply Rmult_le_pos; [apply Rmult_le_pos; [apply pos_INR | lra] | lra].
+  - assert (n <= 2 * j)%nat as G.
+    { destruct (Nat.lt_ge_cases (2 * j) n) as [L|G]; [|exact G].
+      apply half_lt in L; congruence. }
+    rewrite (A2 G).
+    assert (0 < INR (n - j)) by (apply lt_0_INR; lia).
+    assert (0 < INR (n - j) * SR / INR n).
+    { unfold Rdiv; apply Rmult_lt_0_compat; [apply Rmult_lt_0_compat; lra | lra]. }
+    lra.
+Qed.
+
+Lemma custom_bins : forall fft ifft interp round6 n (x : nat -> R) SR m tf_freqs tf_amp invert k,
+  ext_on ifft n -> SR > 0 -> (0 < n)%nat ->
+  applyCustomTransferFunction_gen fft ifft interp round6 n x SR m tf_freqs tf_amp invert k =
+  fst (ifft n (fun j => Cmult (fft n (fun i => RtoC (x i)) j)
+                              (RtoC (Rpowz (interp m tf_freqs tf_amp (Rabs (bin_freq SR n j)))
+                                           (if invert then (-1)%Z else 1%Z)))) k).
+Proof.
+  intros fft ifft interp round6 n x SR m tf_freqs tf_amp invert k Hext HSR Hn.
+  unfold applyCustomTransferFunction_gen; cbv zeta.
+  f_equal. apply Hext. intros j Hj.
+  f_equal. f_equal.
+  replace (if invert then (-1)%Z else Z.of_nat 1) with (if invert then (-1)%Z else 1%Z)
+    by (destruct invert; reflexivity).
+  f_equal.
+  destruct (half_ge_0 SR n j HSR Hn Hj) as [P N].
+  unfold concat_arr.
+  destruct (j <? (n + 1) / 2)%nat eqn:E.
+  - f_equal. rewrite (Rabs_right _ (P eq_refl)). reflexivity.
+  - unfold rev_arr.
+    apply Nat.ltb_ge in E.
+    match goal with
+    | |- context [fftfreq n ?d ?idx] => replace idx with j by lia
+    end.
+    f_equal. rewrite (Rabs_left _ (N eq_refl)). reflexivity.
+Qed.
+
+Lemma lin_core : forall (fft ifft : nat -> (nat -> C) -> nat -> C) n (T : nat -> C) (x y : nat -> R) (a : R) k,
+  (forall (u v : nat -> C) (c : C) j, fft n (fun i => Cplus (Cmult c (u i)) (v i)) j = Cplus (Cmult c (fft n u j)) (fft n v j)) ->
+  (forall (u v : nat -> C) (c : C) j, ifft n (fun i => Cplus (Cmult c (u i)) (v i)) j = Cplus (Cmult c (ifft n u j)) (ifft n v j)) ->
+  ext_on fft n -> ext_on ifft n ->
+  fst (ifft n (fun j => Cmult (fft n (fun i => RtoC (a * x i + y i)) j) (T j)) k) =
+  a * fst (ifft n (fun j => Cmult (fft n (fun i => RtoC (x i)) j) (T j)) k) +
+  fst (ifft n (fun j => Cmult (fft n (fun i => RtoC (y i)) j) (T j)) k).
+Proof.
+  intros fft ifft n T x y a k Lf Li Ef Ei.
+  transitivity (fst (Cplus (Cmult (RtoC a) (ifft n (fun j => Cmult (fft n (fun i => RtoC (x i)) j) (T j)) k))
+                           (ifft n (fun j => Cmult (fft n (fun i => RtoC (y i)) j) (T j)) k))).
+  - f_equal. rewrite <- Li. apply Ei. intros j Hj. cbv beta.
+    rewrite (Ef _ (fun i => Cplus (Cmult (RtoC a) (RtoC (x i))) (RtoC (y i)))).
+    + rewrite Lf. ring.
+    + intros i Hi. apply Ceq_parts; simpl; ring.
+  - generalize (ifft n (fun j => Cmult (fft n (fun i => RtoC (x i)) j) (T j)) k).
+    generalize (ifft n (fun j => Cmult (fft n (fun i => RtoC (y i)) j) (T j)) k).
+    intros [v1 v2] [u1 u2]; simpl; ring.
+Qed.
+
+Lemma rc_linear : forall fft ifft n (x y : nat -> R) (a : R) SR kind f_cut order g k,
+  (forall (u v : nat -> C) (c : C) j, fft n (fun i => Cplus (Cmult c (u i)) (v i)) j = Cplus (Cmult c (fft n u j)) (fft n v j)) ->
+  (forall (u v : nat -> C) (c : C) j, ifft n (fun i => Cplus (Cmult c (u i)) (v i)) j = Cplus (Cmult c (ifft n u j)) (ifft n v j)) ->
+  ext_on fft n -> ext_on ifft n ->
+  applyRCFilter_gen fft ifft n (fun i => a * x i + y i) SR kind f_cut order g k =
+  a * applyRCFilter_gen fft ifft n x SR kind f_cut order g k + applyRCFilter_gen fft ifft n y SR kind f_cut order g k.
+Proof.
+  intros fft ifft n x y a SR kind fc order g k Lf Li Ef Ei.
+  unfold applyRCFilter_gen; cbv zeta.
+  apply (lin_core fft ifft n (_rcFilter_gen SR n fc kind order g) x y a k); assumption.
+Qed.
+
+(* ================= C13 ================= *)
+
+Lemma lowpass_cancels : forall SR n f_cut order g g' j,
+  f_cut <> 0 ->
+  Cmult (_rcFilter_gen SR n f_cut "LP" order g j) (_rcFilter_gen SR n f_cut "LP" (- order) g' j) = RtoC 1.
+Proof.
+  intros; rewrite !rc_gen_eq, !rc_base_LP. apply Cpowz_cancel, H_LP_neq0.
+Qed.
+
+Lemma highpass_cancels : forall SR n f_cut order g g' j,
+  f_cut <> 0 -> bin_freq SR n j <> 0 ->
+  Cmult (_rcFilter_gen SR n f_cut "HP" order g j) (_rcFilter_gen SR n f_cut "HP" (- order) g' j) = RtoC 1.
+Proof.
+  intros; rewrite !rc_gen_eq, !rc_base_HP_nz by assumption. apply Cpowz_cancel, H_HP_neq0; assumption.
+Qed.
+
+Lemma highpass_dc_cancels : forall SR n f_cut order g j,
+  g <> 0 -> bin_freq SR n j = 0 ->
+  Cmult (_rcFilter_gen SR n f_cut "HP" order g j) (_rcFilter_gen SR n f_cut "HP" (- order) g j) = RtoC 1.
+Proof.
+  intros; rewrite !rc_gen_eq, !rc_base_HP_dc by assumption. apply Cpowz_cancel, RtoC_neq0; assumption.
+Qed.
+
+Lemma highpass_dc_lost : forall SR n f_cut order j,
+  (0 < order)%Z -> bin_freq SR n j = 0 -> _rcFilter_gen SR n f_cut "HP" order 0 j = RtoC 0.
+Proof.
+  intros SR n fc order j Ho Hf; rewrite rc_gen_eq, rc_base_HP_dc by assumption.
+  destruct order as [|p|p]; try lia. simpl. apply Cpow_nat_0, Pos2Nat.is_pos.
+Qed.
+
+Lemma orders_add : forall SR n f_cut kind g j a b,
+  _rcFilter_gen SR n f_cut kind 1 g j <> RtoC 0 ->
+  Cmult (_rcFilter_gen SR n f_cut kind a g j) (_rcFilter_gen SR n f_cut kind b g j) =
+  _rcFilter_gen SR n f_cut kind (a + b) g j.
+Proof.
+  intros SR n fc kind g j a b H; rewrite rc_gen_eq, Cpowz_1 in H.
+  rewrite !rc_gen_eq. apply Cpowz_add; exact H.
+Qed.
+
+Lemma first_order_nonzero : forall SR n f_cut g j,
+  f_cut <> 0 ->
+  _rcFilter_gen SR n f_cut "LP" 1 g j <> RtoC 0 /\
+  (bin_freq SR n j <> 0 \/ g <> 0 -> _rcFilter_gen SR n f_cut "HP" 1 g j <> RtoC 0).
+Proof.
+  intros SR n fc g j Hfc; split.
+  - rewrite rc_gen_eq, Cpowz_1, rc_base_LP. apply H_LP_neq0.
+  - intro H. rewrite rc_gen_eq, Cpowz_1.
+    destruct (Req_EM_T (bin_freq SR n j) 0) as [Z|NZ].
+    + rewrite rc_base_HP_dc by assumption. destruct H as [H|H]; [contradiction|]. apply RtoC_neq0; exact H.
+    + rewrite rc_base_HP_nz by assumption. apply H_HP_neq0; assumption.
+Qed.
+
+Lemma rc_cancel_kind : forall SR n f_cut kind order g j,
+  f_cut <> 0 -> (kind = "HP" \/ kind = "LP")%string -> bin_freq SR n j <> 0 ->
+  Cmult (_rcFilter_gen SR n f_cut kind order g j) (_rcFilter_gen SR n f_cut kind (- order) g j) = RtoC 1.
+Proof.
+  intros SR n fc kind order g j Hfc [-> | ->] Hf.
+  - apply highpass_cancels; assumption.
+  - apply lowpass_cancels; assumption.
+Qed.
+
+Lemma round_trip_spectrum : forall fft ifft n (x : nat -> R) SR kind f_cut order g j,
+  fft_inverse fft ifft n -> fft_real_part fft n -> fft_real_hermitian fft n ->
+  SR <> 0 -> f_cut <> 0 -> (kind = "HP" \/ kind = "LP")%string -> (0 < j < n)%nat -> (2 * j <> n)%nat ->
+  bin_freq SR n j <> 0 ->
+  let y := applyRCFilter_gen fft ifft n x SR kind f_cut order g in
+  let z := applyInverseRCFilter_gen fft ifft n y SR kind f_cut order g in
+  let y' := applyInverseRCFilter_gen fft ifft n x SR kind f_cut order g in
+  let z' := applyRCFilter_gen fft ifft n y' SR kind f_cut order g in
+  fft n (fun k => RtoC (z k)) j = fft n (fun k => RtoC (x k)) j /\
+  fft n (fun k => RtoC (z' k)) j = fft n (fun k => RtoC (x k)) j.
+Proof.
+  intros fft ifft n x SR kind fc order g j Hinv Hre Hherm HSR Hfc Hk Hj Hne Hf y z y' z'.
+  pose proof (rc_cancel_kind SR n fc kind order g j Hfc Hk Hf) as Hc.
+  destruct (filter_spectrum fft ifft n x SR kind fc order g j Hinv Hre Hherm HSR Hfc Hk Hj Hne) as [_ [Fx Ix]].
+  destruct (filter_spectrum fft ifft n y SR kind fc order g j Hinv Hre Hherm HSR Hfc Hk Hj Hne) as [_ [_ Iy]].
+  destruct (filter_spectrum fft ifft n y' SR kind fc order g j Hinv Hre Hherm HSR Hfc Hk Hj Hne) as [_ [Fy' _]].
+  split.
+  - unfold z. rewrite Iy. unfold y. rewrite Fx.
+    rewrite <- Cmult_assoc, Hc. apply Cmult_1_r.
+  - unfold z'. rewrite Fy'. unfold y'. rewrite Ix.
+    rewrite <- Cmult_assoc, (Cmult_comm (_rcFilter_gen SR n fc kind (- order) g j)), Hc. apply Cmult_1_r.
+Qed.
+
+Lemma custom_inverse : forall t : R, t <> 0 -> Rpowz t 1 * Rpowz t (-1) = 1.
+Proof. intros t Ht; unfold Rpowz; simpl; field; exact Ht. Qed.
